@@ -24,6 +24,14 @@ int, object, date) x
     (t['a'].name = 'z', t.a.name, t.cols()[i].name, renamed twice, two columns swapping names): the new name
     writes its column, the old name must raise and change nothing; the same on tables whose names differ only
     in case / sanitisation (reported under one key of its own).
+  * "fails for any reason": writes during which a CONVERSION raises ('unconv' block).  Int / nullable-int
+    columns of length 1..3 that hold an int no float can represent (10**400, -10**400, at every position) receive
+    float / complex scalars and sequences (wider value first / last, with None, list / tuple / Vector) through
+    every key form (one key per addressed-position tuple), so promoting the existing elements raises
+    OverflowError; float / complex / int / bool columns receive such an int as (part of) the written value; the
+    same through table cell, column, row and region writes.  If the write raises, values, element types, schema,
+    name and fingerprint must be exactly what they were (key '...:not-atomic-when-<which>-conversion-raises');
+    if it does not raise, the contents must equal (==) list assignment.
 Oracle: a pure-Python model (list assignment on the addressed positions + the kind lattice).
 Any raise must leave view(v) and v.fingerprint() exactly as before.
 """
@@ -481,6 +489,103 @@ def cases_strengthen(tier):
 def cases(tier, seed):
     yield from cases_base(tier, seed)
     yield from cases_strengthen(tier)
+    yield from cases_unconvertible(tier)
+
+
+# --------------------------------------------------------------------------------------------
+# "fails for any reason": a conversion raises while the write is carried out
+# --------------------------------------------------------------------------------------------
+HUGE = 10 ** 400          # an int: float(HUGE) and complex(HUGE) raise OverflowError
+
+
+def hsrc(x):
+    """Source of a value; the huge int is written symbolically (ev() evaluates expressions)."""
+    if isinstance(x, (list, tuple)):
+        inner = ', '.join(hsrc(e) for e in x)
+        return '[' + inner + ']' if isinstance(x, list) else '(' + inner + (',' if len(x) == 1 else '') + ')'
+    if isinstance(x, dict):
+        return '{' + ', '.join(f'{k!r}: {hsrc(v)}' for k, v in x.items()) + '}'
+    if type(x) is int and abs(x) == HUGE:
+        return '10**400' if x > 0 else '-10**400'
+    return lit(x)
+
+
+# columns that hold an unconvertible element ('existing') ...
+UNCONV_EXISTING = [
+    [HUGE], [HUGE, 2], [1, HUGE], [HUGE, 2, 3], [1, HUGE, 3], [1, 2, HUGE], [-HUGE, 2, HUGE],
+    [HUGE, None], [None, HUGE, 3], [1, None, -HUGE],
+]
+# ... and ordinary columns that are written with such a value ('written')
+UNCONV_TARGETS = [[1.5], [1.5, 2.5], [1.5, 2.5, 3.5], [1.5, None, 3.5], [1j, 2j], [1j, 2j, None], [1, 2, 3], [True, False], [True, False, True]]
+
+
+def unconv_values(col, m, tier):
+    """(which, value form, values) for a key addressing m >= 1 positions of `col`."""
+    out = []
+    if any(type(x) is int and abs(x) == HUGE for x in col):
+        for x in (2.5, 1j, -0.0):
+            out.append(('existing-element', 's', x))
+        seqs = [[2.5] * m, [1j] * m]
+        if m >= 2:
+            seqs += [[7] * (m - 1) + [2.5], [2.5] + [7] * (m - 1), [None] * (m - 1) + [2.5], [1j] + [7] * (m - 1), [7] * (m - 1) + [1j]]
+        for q in seqs:
+            for form in (('l', 't', 'v') if tier != 'quick' or q is seqs[0] else ('l',)):
+                out.append(('existing-element', form, q))
+        return out
+    first = next(x for x in col if x is not None)
+    fit = 7.5 if type(first) is float else 7j if type(first) is complex else 7
+    if type(first) in (float, complex):
+        out.append(('written-value', 's', HUGE))
+        out.append(('written-value', 's', -HUGE))
+        seqs = [[HUGE] * m] + ([[HUGE] + [fit] * (m - 1), [fit] * (m - 1) + [HUGE], [None] * (m - 1) + [HUGE]] if m >= 2 else [])
+    else:
+        # int / bool column: the huge int arrives together with a value that widens the column to float / complex
+        seqs = [[2.5, HUGE] + [fit] * (m - 2), [HUGE, 2.5] + [fit] * (m - 2), [fit] * (m - 2) + [1j, HUGE]] if m >= 2 else []
+    for q in seqs:
+        for form in ('l', 't'):
+            out.append(('written-value', form, q))
+    return out
+
+
+def cases_unconvertible(tier):
+    for col in UNCONV_EXISTING + UNCONV_TARGETS:
+        n = len(col)
+        for key in reduced_keys(n):
+            st, pos = positions(key, n)
+            if st != 'ok' or not pos:
+                continue
+            for which, form, x in unconv_values(col, len(pos), tier):
+                yield {'k': 'unconv', 'on': 'vec', 'which': which, 'col': hsrc(col), 'key': key, 'val': [form, hsrc(x)]}
+    # the same through table writes: column 'a' is the column under test, 'b' / 'c' ordinary neighbours
+    for col in [c for c in UNCONV_EXISTING + UNCONV_TARGETS if len(c) >= 2]:
+        n = len(col)
+        t = {'a': col, 'b': ['x', 'y', 'z'][:n], 'c': [0.5, 1.5, 2.5][:n]}
+        huge_in_col = any(type(x) is int and abs(x) == HUGE for x in col)
+        which = 'existing-element' if huge_in_col else 'written-value'
+        first = next(x for x in col if x is not None)
+        if huge_in_col:
+            cellvals = [2.5, 1j]
+        elif type(first) in (float, complex):
+            cellvals = [HUGE, -HUGE]
+        else:
+            cellvals = []
+        for i in range(n):
+            for x in cellvals:
+                for cs in (['name', 'a'], ['int', 0]):
+                    yield {'k': 'unconv', 'on': 'cell', 'which': which, 't': hsrc(t), 'row': i, 'col': cs, 'x': hsrc(x)}
+                yield {'k': 'unconv', 'on': 'row', 'which': which, 't': hsrc(t), 'row': i, 'how': 't[i]', 'x': hsrc([x, 'q', 9.5])}
+                yield {'k': 'unconv', 'on': 'row', 'which': which, 't': hsrc(t), 'row': i, 'how': 't[i, :]', 'x': hsrc([x, 'q', 9.5])}
+        for rs in ([None, None, None], [0, 2, None], [1, None, None], [None, None, -1]):
+            m = len(list(range(n))[slice(*rs)])
+            if not m:
+                continue
+            for _, form, x in unconv_values(col, m, 'quick'):
+                if form == 't':
+                    continue
+                yield {'k': 'unconv', 'on': 'column', 'which': which, 't': hsrc(t), 'rows': rs, 'col': ['name', 'a'], 'val': [form, hsrc(x)]}
+                if form == 'l':
+                    src = {'z0': x, 'z1': ['p', 'q', 'r'][:m]}
+                    yield {'k': 'unconv', 'on': 'region', 'which': which, 't': hsrc(t), 'rows': rs, 'cols': [0, 2, None], 'val': ['t', hsrc(src)]}
 
 
 def cases_base(tier, seed):
@@ -1130,7 +1235,136 @@ def eval_trn(case):
     return fails
 
 
-EVAL = {'vec': eval_vec, 'tcell': eval_tcell, 'trow': eval_trow, 'tcol': eval_tcol, 'tregion': eval_tregion, 'rename': eval_rename,
+def _cells_equal(got, want):
+    return len(got) == len(want) and all((g is None) == (w is None) and (g is None or g == w) for g, w in zip(got, want))
+
+
+def _snap(v):
+    return (view(v), tuple(type(x).__name__ for x in v._underlying), v.fingerprint())
+
+
+def eval_unconv(case):
+    """A write during which converting an element / a value raises: raise => nothing changed at all;
+    no raise => the contents are what list assignment gives (compared with ==)."""
+    on, which = case['on'], case['which']
+    cls = f'not-atomic-when-{which}-conversion-raises'
+    fails = []
+    if on == 'vec':
+        L = cev(case['col'])
+        key, val = case['key'], case['val']
+        x = cev(val[1])
+        site = f'Vector.setitem.{KEYSITE[key[0]]}'
+        pos = positions(key, len(L))[1]
+        src = f"v = Vector({case['col']}, name='n'); v[{keysrc(key)}] = " + (f'Vector({val[1]})' if val[0] == 'v' else f'tuple({val[1]})' if val[0] == 't' else val[1])
+        try:
+            v = Vector(list(L), name='n')
+            value = x if val[0] in ('s', 'l') else tuple(x) if val[0] == 't' else Vector(list(x))
+            k = mkkey(key)
+        except Exception:
+            return []                   # building the operands is not the operation under test
+        before = _snap(v)
+        try:
+            v[k] = value
+            err = None
+        except Exception as e:
+            err = e.with_traceback(None)
+        after = _snap(v)
+        if err is not None:
+            if after != before:
+                fails.append(Fail(f'C08:{site}:{cls}', f'{src} raised {type(err).__name__} ({err}) but the vector changed: schema {before[0][3]} -> {after[0][3]}, '
+                                  f'element types {before[1]} -> {after[1]}, name {before[0][2]!r} -> {after[0][2]!r}, fingerprint '
+                                  f'{"same" if before[2] == after[2] else "changed"}', before[0][3:] + (before[1],), after[0][3:] + (after[1],)))
+            return fails
+        want = list(L)
+        for p, w in zip(pos, [x] * len(pos) if val[0] == 's' else list(x)):
+            want[p] = w
+        got = list(v._underlying)
+        if not _cells_equal(got, want) or v.name != 'n':
+            fails.append(Fail(f'C08:{site}:unconvertible-write-wrong-contents', f'{src} did not raise; the vector holds other values than list assignment gives',
+                              hsrc(want), repr(after[0])[:300]))
+        m = truthful(v)
+        if m:
+            fails.append(Fail(f'C03:Vector.setitem.{c03_cause(v)}:truthful', f'{src}: {m[:300]}', None, repr(v.schema())))
+        return fails
+    # ---- table writes
+    d = cev(case['t'])
+    names = list(d)
+    n = len(d['a'])
+    try:
+        t = mktable(d)
+    except Exception:
+        return []
+    if on == 'cell':
+        i, cs, x = case['row'], case['col'], cev(case['x'])
+        src = f"t = Table({case['t']}); t[{i}, {spec_src(cs)}] = {case['x']}"
+        do = lambda: t.__setitem__((i, cs[1]), x)
+        addressed, assign = {'a'}, {'a': ([i], [x])}
+    elif on == 'row':
+        i, x = case['row'], cev(case['x'])
+        src = f"t = Table({case['t']}); {case['how'].replace('i', str(i))} = {case['x']}"
+        key = i if case['how'] == 't[i]' else (i, slice(None))
+        do = lambda: t.__setitem__(key, list(x))
+        addressed, assign = set(names), {nm: ([i], [x[j]]) for j, nm in enumerate(names)}
+    elif on == 'column':
+        rs, val = case['rows'], case['val']
+        x = cev(val[1])
+        rows = list(range(n))[slice(*rs)]
+        value = x if val[0] in ('s', 'l') else Vector(list(x))
+        src = f"t = Table({case['t']}); t[{spec_src(['slice', rs])}, 'a'] = " + (f'Vector({val[1]})' if val[0] == 'v' else val[1])
+        do = lambda: t.__setitem__((slice(*rs), 'a'), value)
+        addressed, assign = {'a'}, {'a': (rows, [x] * len(rows) if val[0] == 's' else list(x))}
+    else:
+        rs, csl, x = case['rows'], case['cols'], cev(case['val'][1])
+        rows = list(range(n))[slice(*rs)]
+        cols = names[slice(*csl)]
+        try:
+            value = mktable(x)
+        except Exception:
+            return []
+        src = f"t = Table({case['t']}); t[{spec_src(['slice', rs])}, {spec_src(['slice', csl])}] = Table({case['val'][1]})"
+        do = lambda: t.__setitem__((slice(*rs), slice(*csl)), value)
+        addressed, assign = set(cols), {nm: (rows, list(col)) for nm, col in zip(cols, x.values())}
+    site = f'Table.setitem.{on}'
+    before = {nm: _snap(c) for nm, c in zip(names, t.cols())}
+    try:
+        do()
+        err = None
+    except Exception as e:
+        err = e.with_traceback(None)
+    if t.column_names() != names or len(t.cols()) != len(names):
+        return [Fail(f'C08:{site}:column-names-changed', f'{src}: {t.column_names()!r}', names, t.column_names())]
+    after = {nm: _snap(c) for nm, c in zip(names, t.cols())}
+    if err is not None:
+        for nm in names:
+            if after[nm] == before[nm]:
+                continue
+            if nm == 'a' or nm not in addressed or len(addressed) == 1 or STRICT_TABLE_ATOMIC:
+                # the column in which the conversion raises, and every column the write does not address, must be untouched
+                # (an ordinary neighbour column of a multi-column write may already be assigned: statement undecided)
+                fails.append(Fail(f'C08:{site}:{cls}' if nm == 'a' else f'C08:{site}:unaddressed-column-changed-on-failure',
+                                  f'{src} raised {type(err).__name__} ({err}) but column {nm!r} changed: schema {before[nm][0][3]} -> {after[nm][0][3]}, '
+                                  f'element types {before[nm][1]} -> {after[nm][1]}, fingerprint {"same" if before[nm][2] == after[nm][2] else "changed"}',
+                                  before[nm][0][3:] + (before[nm][1],), after[nm][0][3:] + (after[nm][1],)))
+                break
+        return fails
+    for nm in names:
+        want = list(d[nm])
+        if nm in assign:
+            for p, w in zip(*assign[nm]):
+                want[p] = w
+        if not _cells_equal(list(t.cols()[names.index(nm)]._underlying), want):
+            fails.append(Fail(f'C08:{site}:unconvertible-write-wrong-contents', f'{src} did not raise; column {nm!r} holds other values than list assignment gives',
+                              hsrc(want), repr(after[nm][0])[:300]))
+            break
+    for col in t.cols():
+        m = truthful(col)
+        if m:
+            fails.append(Fail(f'C03:Vector.setitem.{c03_cause(col)}:truthful', f'{src}: {m[:300]}', None, None))
+            break
+    return fails
+
+
+EVAL = {'unconv': eval_unconv, 'vec': eval_vec, 'tcell': eval_tcell, 'trow': eval_trow, 'tcol': eval_tcol, 'tregion': eval_tregion, 'rename': eval_rename,
         'trn': eval_trn}
 
 
@@ -1152,6 +1386,8 @@ def nontrivial(case):
         st, pos = positions(key, n)
         kinds = tuple(type(x).__name__ for x in (pyval if isinstance(pyval, list) else [pyval]))
         return (dt, n, key[0], tuple(pos) if st == 'ok' else pos, val[0], kinds, exp[0], exp[1] if exp[0] == 'fail' else None)
+    if k == 'unconv':
+        return (k,) + tuple(str(case.get(f)) for f in ('on', 'which', 'col', 't', 'key', 'row', 'rows', 'cols', 'how', 'val', 'x'))
     return (k,) + tuple(str(case.get(f)) for f in ('t', 'row', 'col', 'rows', 'cols', 'x', 'vals', 'val', 'old', 'new', 'how', 'plan', 'form', 'name', 'names'))
 
 
@@ -1163,7 +1399,7 @@ if __name__ == '__main__':
               'nullable-int, full value set x one key per addressed-position tuple on every dtype; tables up to 3x3 cell/row/column/region writes; '
               'rename_columns over all old/new lists of length<=2; one multi-value write needing >=2 different promotions in every order (vector keys, '
               'table column / region); failing writes mixing None with an incompatible value; writes addressed by column name as the first access '
-              'after renames through live views; case-twin column names.  Oracle: list assignment on the addressed positions + kind lattice; any raise '
+              'after renames through live views; case-twin column names; writes during which a conversion raises (int columns holding +-10**400 receiving float / complex values, float / complex / int / bool columns receiving +-10**400; vector keys of every form, table cell / row / column / region).  Oracle: list assignment on the addressed positions + kind lattice; any raise '
               'must leave view() and fingerprint() unchanged.  distinct = (dtype, n, key form, addressed positions, value form, value kinds, outcome)',
          bound=lambda tier: {'max_len': 4, 'dtypes': 7, 'slice_cube': '9x9x5', 'index_list_len': 2, 'table': '3x3'},
          nontrivial=nontrivial)
